@@ -136,6 +136,7 @@ def tmle_targets():
         tr.returns = [('point', tr.expr(hits[0].value))]
         out.append(Translated(tr))
     out.append(translate_function(os.path.join(REPO, 'zepid/causal/doublyrobust/utils.py'), 'tmle_unit_unbound'))
+    out.append(translate_function(os.path.join(REPO, 'zepid/causal/doublyrobust/utils.py'), 'tmle_unit_bounds'))
     return out
 
 
